@@ -21,8 +21,15 @@ def main():
     meta = {"seed": sid, "property": sid.split("-")[0], "demo_placed_at": place, "ran": []}
     rc, out = sh("git status --porcelain")
     assert out.strip() == "", "repo not clean: " + out
+    # runs against a changed tree must not leave their evidence behind: the committed evidence describes /repo itself
+    evbak = "/verif/.build/evidence.keep"
+    shutil.rmtree(evbak, ignore_errors=True)
+    shutil.copytree("/verif/evidence", evbak)
     def cleanup():
         sh("git checkout -- . && git clean -fdq")
+        if os.path.isdir(evbak):
+            shutil.rmtree("/verif/evidence", ignore_errors=True)
+            shutil.copytree(evbak, "/verif/evidence")
     try:
         # demo on the unchanged tree
         os.makedirs(os.path.dirname(os.path.join("/repo", place)) or "/repo", exist_ok=True)
